@@ -42,7 +42,7 @@ RULE = ('case = (validators: list of (32-byte Ed25519 seed, weight); block id; s
         'member-i / bit-flipped / valid-for-another-block (root or file hash changed, or swapped) / valid-by-non-member / '
         'member-id-with-foreign-signature, in generated order, members may repeat). 0..12 validators; weights from '
         '{0,1,2,3, random up to 2^62} or engineered so that 3*signed - 2*total is in {-3..3} (exact 2/3 and both sides). '
-        'enum-small: n=0..5 validators x 3 weight patterns x every subset of signers x 9 list shapes. '
+        'enum-small: n=0..5 validators x 3 weight patterns x every subset of signers x 11 list shapes. '
         'non-trivial = list holds an adversarial element or a repeated signer, or |3*signed - 2*total| <= 3; '
         'distinct = distinct case')
 ASSUMPTIONS = ['PyNaCl Ed25519 signing (deterministic) from generated seeds', 'hashlib.sha256',
@@ -60,6 +60,18 @@ def _key(seed_hex):
 
 def node_id(pub):
     return hashlib.sha256(MAGIC_PUB_ED25519 + pub).digest()
+
+
+def spell(hx, how):
+    """other spellings of the same id that bytes.fromhex reads alike: 0 lower (what the TL parser returns), 1 upper, 2 mixed
+    case, 3 with blanks between bytes"""
+    if how == 1:
+        return hx.upper()
+    if how == 2:
+        return ''.join(c.upper() if i % 3 == 0 else c for i, c in enumerate(hx))
+    if how == 3:
+        return ' '.join(hx[i:i + 2] for i in range(0, len(hx), 2))
+    return hx
 
 
 def analyse(case):
@@ -145,7 +157,7 @@ def check(case):
             s = sk.sign(payload).signature
         else:
             raise ValueError(k)
-        sigs.append({'node_id_short': node_id(pk).hex(), 'signature': s})
+        sigs.append({'node_id_short': spell(node_id(pk).hex(), e.get('sp', 0)), 'signature': s})
     expect, reasons, signed, total = analyse(case)
     ok, res = call(check_block_signatures, nodes, sigs, blk)
     f = None
@@ -154,6 +166,8 @@ def check(case):
     if ok and not expect:
         why = next(r for r in PRIORITY if r in reasons)
         f = Fail(f'accepted/{why}', f'accepted although {sorted(reasons)}: {summ}')
+    elif not ok and expect and any(e.get('sp', 0) for e in case['sigs']):
+        f = None          # ids in a spelling other than the TL parser's lower-case hex: accepting them is not required
     elif not ok and expect:
         sig = 'rejected/valid-supermajority'
         if type(res).__name__ != 'ProofError':
@@ -192,6 +206,8 @@ def enum_small(tier):
                     shapes.append(('dup', base + [{'k': 'valid', 'i': m}]))
                     shapes.append(('dup-x3', [{'k': 'valid', 'i': m}] * 3 + base[1:]))
                     shapes.append(('dup-alt', base + [{'k': 'valid-alt', 'i': m, 'salt': mask % 256}]))
+                    shapes.append(('dup-respelled', base + [{'k': 'valid', 'i': m, 'sp': 1 + mask % 3}]))
+                    shapes.append(('dup-alt-respelled', [{'k': 'valid-alt', 'i': m, 'salt': 3, 'sp': 1 + (mask + 1) % 3}] + base))
                     shapes.append(('alt-only', [{'k': 'valid-alt', 'i': i, 'salt': i} for i in members]))
                     shapes.append(('bitflip', base[1:] + [{'k': 'bitflip', 'i': m, 'bit': (mask * 37) % 512}]))
                     shapes.append(('otherblk', [{'k': 'otherblk', 'i': m, 'how': ('root', 'file', 'swap')[mask % 3],
@@ -258,6 +274,8 @@ def _case(draw):
                 extra.append(dict(extra[-1]))
             if draw(st.booleans()):                          # the repeat is a *different* valid signature
                 extra[-1] = {'k': 'valid-alt', 'i': extra[-1]['i'], 'salt': draw(st.integers(0, 255))}
+            if draw(st.integers(0, 2)) == 0:                 # ... whose signer id is spelled differently
+                extra[-1]['sp'] = draw(st.integers(1, 3))
         elif kd == 'bitflip':
             extra.append({'k': 'bitflip', 'i': draw(st.integers(0, n - 1)), 'bit': draw(st.integers(0, 511))})
         elif kd == 'otherblk':
@@ -295,6 +313,8 @@ def classify(case):
         yield 'weights>=2^32'
     if not case['sigs']:
         yield 'empty-signature-list'
+    if any(e.get('sp', 0) for e in case['sigs']):
+        yield 'id-respelled'
 
 
 def nontrivial(case):
@@ -305,6 +325,6 @@ def nontrivial(case):
 
 SUBCHECKS = [
     Sub('enum-small', check, enum=enum_small, classify=classify, nontrivial=nontrivial, shards=(16, 32),
-        note='n=0..5 (thorough 0..7) validators x 3 weight patterns x every signer subset x 9 list shapes'),
+        note='n=0..5 (thorough 0..7) validators x 3 weight patterns x every signer subset x 11 list shapes'),
     Sub('random', check, strategy=strat, classify=classify, nontrivial=nontrivial, n=(4000, 300000), shards=(16, 48)),
 ]
